@@ -107,6 +107,7 @@ func runCheck(prop, tier string, overlay map[string][]byte, mutantMode bool) (*C
 	e := newEngine(w, db)
 	e.overlay = overlay
 	known := loadKnown()
+	templates := loadTemplates()
 
 	// functions under contract for this property
 	var keys []string
@@ -135,6 +136,13 @@ func runCheck(prop, tier string, overlay map[string][]byte, mutantMode bool) (*C
 		}
 		rep := e.verifyFunc(fn, c, prop)
 		res.Reports = append(res.Reports, rep)
+		if t := templates[k]; t != nil && rep.Unsupported == "" {
+			if pr, err := e.evalProbes(nil, t); err == nil {
+				rep.Probes, rep.Template = pr, t
+			} else {
+				res.Notes["replay template of "+k+" unusable: "+err.Error()] = true
+			}
+		}
 		for _, o := range rep.Obls {
 			o.Name = fmt.Sprintf("%s/%s/%s:%s", prop, o.Fn, o.Kind, o.Label)
 			if o.Fn != k {
@@ -343,7 +351,43 @@ func (e *Engine) evalWitness(fn *ssa.Function, src string) (t *Term, err error) 
 // ---------------------------------------------------------------------
 // reporting
 
-func writeReplay(prop string, a *oblAgg) string {
+// tryReplay turns the solver's model of a failed obligation into a run of the real function.
+func tryReplay(res *CheckResult, a *oblAgg) (bool, string, map[string]string) {
+	var rep *FuncReport
+	for _, r := range res.Reports {
+		if r.Key == a.Fn {
+			rep = r
+		}
+	}
+	if rep == nil || rep.Template == nil {
+		return false, "", nil
+	}
+	dir, err := os.MkdirTemp("", "govc-replay-")
+	if err != nil {
+		return false, err.Error(), nil
+	}
+	defer os.RemoveAll(dir)
+	var log strings.Builder
+	for _, o := range a.Failed {
+		if o.Result != "sat" || o.FailSMT == "" {
+			continue
+		}
+		vals, out := probeModel(o.FailSMT, rep.Probes, dir)
+		if vals == nil {
+			log.WriteString("model probing failed: " + out + "\n")
+			continue
+		}
+		label := o.Label
+		ok, tl := runReplay(rep.Template, label, vals, dir)
+		log.WriteString(tl)
+		if ok {
+			return true, log.String(), vals
+		}
+	}
+	return false, log.String(), nil
+}
+
+func writeReplay(prop string, a *oblAgg, confirmed bool, rlog string, vals map[string]string) string {
 	dir := filepath.Join(verifDir, "replay")
 	os.MkdirAll(dir, 0o755)
 	name := strings.NewReplacer("/", "_", "(", "", ")", "", "*", "", ":", "_", " ", "_", "$", "_", "@", "_").Replace(a.Name)
@@ -365,11 +409,16 @@ func writeReplay(prop string, a *oblAgg) string {
 		Obligation string `json:"obligation"`
 		Kind       string `json:"kind"`
 		Function   string `json:"function"`
-		Confirmed  bool   `json:"replay_confirmed"`
-		Note       string `json:"note"`
-		Instances  []inst `json:"failed_instances"`
-	}{Property: prop, Obligation: a.Name, Kind: a.Kind, Function: a.Fn,
+		Confirmed  bool              `json:"replay_confirmed"`
+		Input      map[string]string `json:"replay_input,omitempty"`
+		Log        string            `json:"replay_log,omitempty"`
+		Note       string            `json:"note"`
+		Instances  []inst            `json:"failed_instances"`
+	}{Property: prop, Obligation: a.Name, Kind: a.Kind, Function: a.Fn, Confirmed: confirmed, Input: vals, Log: rlog,
 		Note: "failed proof obligation; no concrete failing input was replayed against the real code (no-failing-input-found)"}
+	if confirmed {
+		out.Note = "failed proof obligation; the solver's counterexample was replayed against the real function and reproduces the violation"
+	}
 	for i, o := range a.Failed {
 		if i >= 3 {
 			break
@@ -528,14 +577,20 @@ func cmdCheck(args []string) int {
 			}
 			continue
 		}
-		path := writeReplay(prop, a)
+		confirmed, rlog, vals := tryReplay(res, a)
+		path := writeReplay(prop, a, confirmed, rlog, vals)
 		f := a.Failed[0]
 		why := f.Result
 		if f.Unsupp != "" {
 			why = f.Unsupp
 		}
 		fmt.Printf("  FAIL %s (%d/%d instances) %s :: %s @ %s\n", a.Name, len(a.Failed), len(a.Instances), why, f.Src, f.Line)
-		res.Violations = append(res.Violations, fmt.Sprintf("VIOLATION property=%s replay=%s obligation=%s no-failing-input-found", prop, path, a.Name))
+		suffix := " no-failing-input-found"
+		if confirmed {
+			suffix = ""
+			fmt.Printf("  replay on the real code CONFIRMED the counterexample of %s: %v\n", a.Name, vals)
+		}
+		res.Violations = append(res.Violations, fmt.Sprintf("VIOLATION property=%s replay=%s obligation=%s%s", prop, path, a.Name, suffix))
 	}
 	if nObl == 0 {
 		res.Violations = append(res.Violations, fmt.Sprintf("VIOLATION property=%s replay=%s obligation=%s/meta:obligation-count no-failing-input-found", prop, "/verif/props.json", prop))
@@ -550,6 +605,25 @@ func cmdCheck(args []string) int {
 	}
 	for _, k := range res.Known {
 		fmt.Println(k)
+	}
+	if tier == "thorough" {
+		// must-fail corpus: every seeded mutant must break one of its expected obligations
+		n, bad, lines := runMutants(prop, nil, false)
+		res.Extra["selftest_mutants"] = n
+		res.Extra["selftest_caught"] = n - bad
+		res.Extra["selftest_log"] = lines
+		if bad > 0 {
+			p := filepath.Join(verifDir, "replay", prop+"_selftest.json")
+			os.MkdirAll(filepath.Dir(p), 0o755)
+			jb, _ := json.MarshalIndent(map[string]interface{}{"property": prop, "obligation": prop + "/meta:selftest", "log": lines}, "", " ")
+			os.WriteFile(p, jb, 0o644)
+			for _, l := range lines {
+				if strings.HasPrefix(l, "MUTANT-MISSED") || strings.HasPrefix(l, "MUTANT-ERROR") {
+					fmt.Println("  " + l)
+				}
+			}
+			res.Violations = append(res.Violations, fmt.Sprintf("VIOLATION property=%s replay=%s obligation=%s/meta:selftest no-failing-input-found", prop, p, prop))
+		}
 	}
 	wall := time.Since(t0).Seconds()
 	if err := writeEvidence(res, wall, seed, cfgs[prop]); err != nil {
